@@ -14,6 +14,10 @@ RULE_TEXT = ("(a) panic-site census over module elf_stream (as C01) with a types
 
 ALLOC_OK = {
     "default::Default::default": "Vec/HashMap::default allocate nothing",
+    "collections::HashMap::new": "an empty map allocates nothing",
+    "vec::Vec::new": "an empty vector allocates nothing",
+    "clone::Clone::clone": "clones of ranges / integers / shared references: no heap (the module holds no owning value that is cloned)",
+    "result::Result::map_err": "moves", "result::Result::map": "moves", "option::Option::ok_or": "moves", "option::Option::map": "moves",
     "vec::Vec::into_boxed_slice": "shrinks in place; no allocation larger than the vector it consumes",
     "collections::HashMap::insert": "one map slot (amortised growth proportional to the number of cached ranges, each of which required a successful read)",
     "collections::HashMap::clear": "frees",
@@ -177,14 +181,46 @@ def query_site_ok(start, end):
     return False, "the range is not the data range designated by one section/program header"
 
 
+def const_values(an, t, depth=0):
+    """the set of integers a term built from constants, merges and additions can take; None if it is anything else"""
+    if depth > 8:
+        return None
+    if t.op == "const" and isinstance(t.args[1], int):
+        return {t.args[1]}
+    if t.op == "phi" and t in an.phi_ops:
+        out = set()
+        for v in an.phi_ops[t].values():
+            s_ = const_values(an, v, depth + 1)
+            if s_ is None:
+                return None
+            out |= s_
+        return out
+    if t.op == "proj" and t.args[1][:2] == ("f", 0) and t.args[0].op == "bin" and t.args[0].args[0] == "AddWithOverflow":
+        t = T.bin("Add", t.args[0].args[1], t.args[0].args[2], t.args[0].args[3]) if False else t.args[0]
+        a, b = const_values(an, t.args[1], depth + 1), const_values(an, t.args[2], depth + 1)
+        return None if a is None or b is None else {x + y for x in a for y in b}
+    if t.op == "bin" and t.args[0] == "Add":
+        a, b = const_values(an, t.args[1], depth + 1), const_values(an, t.args[2], depth + 1)
+        return None if a is None or b is None else {x + y for x in a for y in b}
+    if t.op in ("mterm", "ite"):
+        arms = [a for _, a in t.args[1]] if t.op == "mterm" else [t.args[1], t.args[2]]
+        out = set()
+        for a in arms:
+            s_ = const_values(an, a, depth + 1)
+            if s_ is None:
+                return None
+            out |= s_
+        return out
+    return None
+
+
 def open_site_ok(an, start, end):
     """allowed while opening: [0,16), [16,16+tail), [shoff, shoff+entsize|size_for), [shoff, shoff+entsize*shnum), [phoff, phoff+entsize*phnum)"""
     c = lambda v: T.const("usize", v)
     if start is c(0) and end is c(16):
         return True, "ident"
     if start is c(16):
-        ops = an.phi_ops.get(end)
-        if ops and set(ops.values()) == {c(16 + 36), c(16 + 48)}:
+        if const_values(an, end) == {16 + 36, 16 + 48}:
             return True, "header tail (36 / 48 bytes by class)"
         return False, "header tail end is not 16+36 / 16+48"
     # table reads: start = try_into(e_shoff|e_phoff)!Ok ; end = checked_add(start, X)!Some
